@@ -38,7 +38,7 @@ func (c21) Describe() engine.Info {
 		Rule: "channel 1/2: duty steps counted over a window of K whole periods of 4x(2048-f) clocks must be exactly K (K chosen so that the window is about 20,000 machine cycles); channel 3: wave positions advanced over a window of K periods of 2x(2048-f) clocks (K even); channel 4: machine cycles between changes of the shift register = d(r)x2^s / 4 for every NR43 value with s<=13, and the output bit sequence at r=0,s=0 has period 32767 (15-bit) / 127 (7-bit) and no shorter period. quick: 64 frequencies per channel incl. 0, 1, 2046, 2047 and 64 NR43 values; thorough: all. While a channel is measured the other channels are triggered at random cycles. Signature = (channel, frequency or NR43 bucket)." +
 			" Class sweep: channel 1 while its sweep unit rewrites the frequency; fresh: channel 4 triggered on a machine as constructed (no power cycle, NR43 never written). Class ch4-retuned: triggered under another NR43 (shift codes 14/15 included), NR43 rewritten without trigger: clocked at the new rate from the second change on, first change within a second. One note in eight starts within three cycles of a whole second after construction.",
 		Assumptions:    []string{"waveform positions are read through the verif accessor (duty index, wave position, shift register)", "the first period after a trigger is not judged (the reload delay after a trigger is not part of the statement)"},
-		RequiredProbes: []string{"fresh_machine_noise", "sweep_changed_the_frequency", "retuned_without_trigger", "square_periods", "wave_periods", "noise_periods", "noise_retuned_without_trigger", "note_started_on_a_second_boundary", "lfsr15_period", "lfsr7_period", "other_channel_triggered_during_measurement"},
+		RequiredProbes: []string{"fresh_machine_noise", "sweep_changed_the_frequency", "retuned_without_trigger", "square_periods", "wave_periods", "noise_periods", "noise_retuned_without_trigger", "note_started_on_a_second_boundary", "restarted_at_every_distance", "lfsr15_period", "lfsr7_period", "other_channel_triggered_during_measurement"},
 		RealComponents: realComponents, StubComponents: stubComponents,
 	}
 }
@@ -70,6 +70,9 @@ func (c21) Generate(r *engine.Rand, index int, tier string) *engine.Scenario {
 		sc.Class = fmt.Sprintf("ch%d", ch+1)
 		sc.SetP("ch", int64(ch+1))
 		sc.SetP("f", int64(freq(index%nf)))
+		if index%4 == 1 {
+			sc.SetP("restarts", 1)
+		}
 		if index%8 == 3 {
 			// the note starts a whole number of seconds after the machine was constructed, give or take a
 			// few machine cycles (counters that wrap once a second)
@@ -108,6 +111,11 @@ func (c21) Generate(r *engine.Rand, index int, tier string) *engine.Scenario {
 			}
 			sc.SetP("nr43_before", int64(p0))
 			sc.SetP("retune_after", int64(r.Range(1, 5000)))
+			if r.Bool() {
+				sc.SetP("short_visit", 1)
+				sc.SetP("nr43_before", int64(r.Intn(6)<<4|r.Intn(8))) // a fast 15-bit generator
+				sc.SetP("nr43", sc.P("nr43", 0)&^0x08)
+			}
 		}
 	default:
 		if index%4 >= 2 {
@@ -220,6 +228,26 @@ func (c21) Execute(sc *engine.Scenario) *engine.Result {
 			m.Write(hi, 0x80|uint8(f>>8))
 		}
 		periodClocks = per(f)
+		if sc.P("restarts", 0) != 0 && periodClocks >= 64 {
+			// the playing channel is restarted (NRx4 with the trigger bit, same frequency) at every distance
+			// from the previous start: the waveform begins again and its first step is not due before half a
+			// period has gone by (the exact delay of the first step is not judged)
+			for d := 1; d <= periodClocks/4+2 && d <= 300; d++ {
+				m.RunCycles(uint64(d))
+				m.Write(hi, 0x80|uint8(f>>8))
+				p0 := pos()
+				n := 0
+				for pos() == p0 && n < periodClocks/4+8 {
+					m.RunCycles(1)
+					n++
+				}
+				if n < periodClocks/8 {
+					res.Fail(fmt.Sprintf("C21/ch%d/first-step-after-restart", ch), m.N, "frequency %d: restarted %d machine cycles after the previous start, the waveform stepped %d machine cycles later (one step per %d clocks)", f, d, n, periodClocks)
+					return res
+				}
+			}
+			res.Probe("restarted_at_every_distance")
+		}
 		// skip the first period, then align to a step
 		m.RunCycles(uint64(periodClocks/4 + 2))
 		start := pos()
@@ -279,6 +307,22 @@ func (c21) Execute(sc *engine.Scenario) *engine.Result {
 			m.Write(0xff22, uint8(p0))
 			m.Write(0xff23, 0x80)
 			m.RunCycles(uint64(sc.P("retune_after", 1)))
+			if sc.P("short_visit", 0) != 0 && p0&0x08 == 0 && p0>>4 < 6 {
+				// a visit to the 7-bit mode while the low seven bits of the register are all alike (waited for),
+				// one clock long, and back: afterwards the 15-bit generator is clocked as ever
+				for n := 0; n < 400000 && lf()&0x7f != 0 && lf()&0x7f != 0x7f; n++ {
+					m.RunCycles(1)
+				}
+				m.Write(0xff22, uint8(p0)|0x08)
+				// one clock of the old rate, two at most: the upper bits have not been shifted out yet, so the
+				// 15-bit generator has something to go on with (a longer stay legitimately empties the register)
+				d0 := 8
+				if p0&7 > 0 {
+					d0 = 16 * int(p0&7)
+				}
+				m.RunCycles(uint64(d0<<uint(p0>>4))/4 + 1)
+				res.Probe("short_mode_visited_in_a_degenerate_state")
+			}
 			m.Write(0xff22, nr43)
 			res.Probe("noise_retuned_without_trigger")
 			res.Fault("retune")
